@@ -188,10 +188,15 @@ func (ip *Inode) Resize(atxn *alloctxn.AllocTxn, sz uint64) bool {
 	}
 	ip.Size = newSz
 	newSz = util.RoundUp(sz, disk.BlockSize)
+	// ShrinkSize covers every block the inode may still hold.  An earlier
+	// shrink may be unfinished (ShrinkSize > oldsz): never lower it here,
+	// or the blocks in between are lost.
+	var keep = newSz
 	if newSz < oldsz {
-		ip.ShrinkSize = oldsz
-	} else {
-		ip.ShrinkSize = newSz
+		keep = oldsz
+	}
+	if ip.ShrinkSize < keep {
+		ip.ShrinkSize = keep
 	}
 	ip.WriteInode(atxn)
 	if newSz < oldsz {
